@@ -461,9 +461,9 @@ func c11SupportsConj(stack string) bool {
 }
 
 func c11Gen(r *Rng, tier string) []string {
-	n := 1500
+	n := 6000
 	if tier == "thorough" {
-		n = 60000
+		n = 120000
 	}
 	var out []string
 	for i := 0; i < n; i++ {
